@@ -223,10 +223,13 @@ PROPS = {
         "assumptions": ["a term whose insertion panics (id >= 10^7) was never added (DESIGN.md §3.2)"],
     },
     "C11": {
-        "subs": [dict(sub("C11", "run_C11", "spec_C11", W_IMPORTS + ["Run.C11"], 250, 2500), proj=proj_c11)],
+        "subs": [dict(sub("C11", "run_C11", "spec_C11", W_IMPORTS + ["Run.C11"], 250, 2500), proj=proj_c11),
+                 dict(sub("C11d", "run_C11d", "spec_C11d", W_IMPORTS + ["Run.C11"], 6, 40), proj=proj_c11)],
         "run_modules": ["C11"],
         "rule": "ontologies of 2-11 terms (thorough up to 22) from the Builder and binary files, with redundant shortcut edges (an ancestor that is "
                 "also a direct parent), tied diamonds, several roots and disconnected terms; ALL ordered pairs of terms, four queries each; "
+                "plus deep ontologies (one chain of 70-100 terms, thorough 130, with side branches) on ~20 selected pairs (deepest term vs root / "
+                "intermediate ancestors / random terms); "
                 "non-trivial = diamond and depth >= 3",
         "trust": [], "assumptions": ["acyclic is_a graphs"],
     },
